@@ -11,8 +11,9 @@
 (*     +-f64::MAX, +-2^1024), so that every kind of number can be placed   *)
 (*     AT ITS LIMITS, the same number exists in several kinds, fractions   *)
 (*     sit next to integers and to big integers, and IEEE-754 rounding     *)
-(*     (`as f64`), truncation (`as i64`) and the EPSILON comparison can be *)
-(*     computed exactly although TLC only has 32-bit integers.  Texts,     *)
+(*     (`as f64`, to_f64) and comparison (incl. floats closer than         *)
+(*     EPSILON) can be computed exactly although TLC only has 32-bit       *)
+(*     integers.  Texts,                                                   *)
 (*     blobs and nested records differing in one leaf complete the pool.   *)
 (*     TLC enumerates the pool (module Gen_ValueOrder); the check          *)
 (*     concretises every abstract value (exact decimal / exact bit         *)
@@ -171,26 +172,6 @@ FCmp(x, y) ==
       [] y.sp = "pinf" -> -1
       [] OTHER -> Sgn(NumOf(x), NumOf(y))         \* -0.0 is the number 0
 
-\* (x - y).abs() < f64::EPSILON for two floats, neither NaN
-WithinEpsilon(x, y) ==
-    /\ x.sp \in {"fin", "negz"} /\ y.sp \in {"fin", "negz"}      \* inf - inf = NaN, inf - x = inf: never < EPSILON
-    /\ x.g = y.g /\ x.u = y.u
-    /\ \/ x.t = y.t                                             \* the same number (incl. 0.0 and -0.0)
-       \/ x.g = 0 /\ x.u = 0                                     \* two tiny numbers around 0
-       \/ x.g = 0 /\ x.u = 2 /\ Abs(x.t - y.t) < 2                \* around 1.0: t counts units of 2^-53 = EPSILON/2
-
-\* `y as i64`: NaN -> 0, saturating, truncation toward zero
-Trunc(x) ==
-    IF x.g = 0 /\ x.u = 0 THEN Zero
-    ELSE IF ~Neg(x) THEN N(x.g, IF Odd(x.u) THEN x.u - 1 ELSE IF x.t < 0 THEN x.u - 2 ELSE x.u)
-    ELSE N(x.g, IF Odd(x.u) THEN x.u + 1 ELSE IF x.t > 0 THEN x.u + 2 ELSE x.u)
-CastI64(y) ==
-    CASE y.sp = "nan" -> Zero
-      [] y.sp = "pinf" -> Hi("i64")
-      [] y.sp = "ninf" -> Lo("i64")
-      [] OTHER -> LET z == Trunc(NumOf(y)) IN
-                  IF Lt(Hi("i64"), z) THEN Hi("i64") ELSE IF Lt(z, Lo("i64")) THEN Lo("i64") ELSE z
-
 RECURSIVE SeqFrom(_, _, _)
 SeqFrom(s, t, i) == IF i > Len(s) THEN (IF i > Len(t) THEN 0 ELSE -1)
                     ELSE IF i > Len(t) THEN 1
@@ -242,7 +223,7 @@ CmpM(a, b) ==
               [] b.k \in IntKinds -> FloatVsWhole(a, b)
               [] b.k = "f64" -> (IF a.sp = "nan" THEN (IF b.sp = "nan" THEN 0 ELSE -1)
                                  ELSE IF b.sp = "nan" THEN 1
-                                 ELSE IF WithinEpsilon(a, b) THEN 0
+                                 ELSE IF FCmp(a, b) = 0 THEN 0                 \* *x == *y (0.0 == -0.0, inf == inf)
                                  ELSE IF FCmp(a, b) < 0 THEN -1 ELSE 1)
               [] OTHER -> 1)
       [] a.k = "bool" ->
@@ -250,21 +231,23 @@ CmpM(a, b) ==
               [] b.k = "bool" -> (IF a.b = b.b THEN 0 ELSE IF b.b THEN -1 ELSE 1)
               [] OTHER -> 1)
       [] a.k = "text" ->
-           (CASE b.k = "record" -> 1
+           (CASE b.k \in {"record", "data"} -> 1
               [] b.k = "text" -> SeqCmp(a.s, b.s)
               [] OTHER -> -1)
       [] a.k = "record" ->
-           (IF b.k = "record" THEN LexCmp(Chain(a), Chain(b)) ELSE -1)
+           (CASE b.k = "record" -> LexCmp(Chain(a), Chain(b))
+              [] b.k = "data" -> 1
+              [] OTHER -> -1)
       [] a.k = "bigint" ->
            (CASE b.k \in {"extant", "bool"} -> -1
               [] b.k \in WholeKinds -> Sgn(NumOf(a), NumOf(b))
-              [] b.k = "f64" -> Sgn(NumOf(a), CastI64(b))            \* bi.cmp(&BigInt::from(*y as i64))
+              [] b.k = "f64" -> 0 - CmpM(b, a)                       \* other.compare(self).reverse(): the Float64 row decides
               [] OTHER -> 1)
       [] a.k = "biguint" ->
            (CASE b.k \in {"extant", "bool"} -> -1
               [] b.k \in {"i32", "i64"} -> (IF Neg(NumOf(b)) THEN 1 ELSE Sgn(NumOf(a), NumOf(b)))   \* u32/u64::try_from(m)
               [] b.k \in {"u32", "u64", "biguint"} -> Sgn(NumOf(a), NumOf(b))
-              [] b.k = "f64" -> (LET c == CastI64(b) IN IF Neg(c) THEN 1 ELSE Sgn(NumOf(a), c))    \* u64::try_from(*m as i64)
+              [] b.k = "f64" -> 0 - CmpM(b, a)                       \* other.compare(self).reverse(): the Float64 row decides
               [] b.k = "bigint" -> (IF Neg(NumOf(b)) THEN 1 ELSE Sgn(NumOf(a), NumOf(b)))           \* to_biguint()
               [] OTHER -> 1)
 
@@ -285,8 +268,8 @@ EqM(a, b) ==
       [] a.k = "data" -> b.k = "data" /\ a.d = b.d
 
 (* M. Hash for Value: do a and b feed the same bytes to the hasher? *)
-\* what is fed to the hasher for a float: write_u64(0) for every NaN - the bits of +0.0 -, else to_bits()
-FBits(x) == IF x.sp = "nan" THEN <<"fin", Zero>> ELSE <<x.sp, NumOf(x)>>
+\* what is fed to the hasher for a float: write_u64(0) for every NaN and for both zeros (the bits of +0.0), else to_bits()
+FBits(x) == IF x.sp \in {"nan", "negz"} THEN <<"fin", Zero>> ELSE <<x.sp, NumOf(x)>>
 FitsI128(x) == ~Lt(x, I128Lo) /\ ~Lt(I128Hi, x)
 RECURSIVE HashEqM(_, _)
 HashEqM(a, b) ==
